@@ -292,3 +292,29 @@ exact_path!(h13a_float_r32_n12, 32, 12, 14);
 // @domain ∀ s∈[0-9]^17
 // @claim from_js_str_radix(s,10) == (exact value) as f64, correctly rounded
 exact_path!(h13a_float_r10_n17, 10, 17, 19);
+
+// @harness h13a_exact_r16_n27 tier=quick props=C13,C02
+// @bounds radix 16, exactly 27 digits (108 bits: above the u64 path, inside the exact 128-bit path), ∀ digit values
+// @domain ∀ s∈[0-9a-fA-F]^27
+// @claim from_js_str_radix(s,16) == (exact value) as f64, correctly rounded (radix 16 must be exact for ≤ 20 significant digits and the implementation promises exactness whenever the value fits 128 bits)
+exact_path!(h13a_exact_r16_n27, 16, 27, 29);
+// @harness h13a_exact_r32_n22 tier=quick props=C13,C02
+// @bounds radix 32, exactly 22 digits (110 bits), ∀ digit values
+// @domain ∀ s∈[0-9a-vA-V]^22
+// @claim from_js_str_radix(s,32) == (exact value) as f64, correctly rounded
+exact_path!(h13a_exact_r32_n22, 32, 22, 24);
+// @harness h13a_exact_r8_n34 tier=thorough props=C13,C02
+// @bounds radix 8, exactly 34 digits (102 bits), ∀ digit values
+// @domain ∀ s∈[0-7]^34
+// @claim from_js_str_radix(s,8) == (exact value) as f64, correctly rounded
+exact_path!(h13a_exact_r8_n34, 8, 34, 36);
+// @harness h13a_exact_r2_n66 tier=thorough props=C13,C02
+// @bounds radix 2, exactly 66 digits (66 bits), ∀ digit values
+// @domain ∀ s∈[01]^66
+// @claim from_js_str_radix(s,2) == (exact value) as f64, correctly rounded
+exact_path!(h13a_exact_r2_n66, 2, 66, 68);
+// @harness h13a_exact_r10_n20 tier=quick props=C13,C02
+// @bounds radix 10, exactly 20 digits (the 19–20 digit integers the property names), ∀ digit values
+// @domain ∀ s∈[0-9]^20
+// @claim from_js_str_radix(s,10) == (exact value) as f64, correctly rounded
+exact_path!(h13a_exact_r10_n20, 10, 20, 22);
